@@ -113,12 +113,14 @@ func c08Scenarios(tier string) []*Scenario {
 		interval         int64
 		twoClosers       bool
 		deriver          bool // a goroutine derives scopes from an open subscope while Close runs (2 registry shards)
+		shards           uint // registry shards (0: one); the root is visited once per shard by a pass
 	}
 	vs := []variant{{cached: true, closable: true, interval: 1e9}, {interval: 1e9}, {cached: true, closable: true, interval: 1e9, twoClosers: true},
-		{interval: 0, deriver: true}}
+		{interval: 0, deriver: true}, {cached: true, interval: 1e9, shards: 3}}
 	if tier == "thorough" {
 		vs = append(vs, variant{cached: true, interval: 1e9}, variant{closable: true, interval: 1e9}, variant{cached: true, closable: true}, variant{},
-			variant{twoClosers: true}, variant{closable: true, interval: 1e9, twoClosers: true}, variant{cached: true, interval: 1e9, deriver: true})
+			variant{twoClosers: true}, variant{closable: true, interval: 1e9, twoClosers: true}, variant{cached: true, interval: 1e9, deriver: true},
+			variant{closable: true, interval: 1e9, shards: 2}, variant{cached: true, closable: true, interval: 1e9, twoClosers: true, shards: 2})
 	}
 	for _, v := range vs {
 		v := v
@@ -129,6 +131,9 @@ func c08Scenarios(tier string) []*Scenario {
 		if v.deriver {
 			name += "-deriver"
 		}
+		if v.shards > 1 {
+			name += fmt.Sprintf("-shards=%d", v.shards)
+		}
 		out = append(out, &Scenario{
 			Property: "C08", Name: name, Ticks: tierInt(tier, 1, 2),
 			Body: func(x *Run) {
@@ -137,6 +142,9 @@ func c08Scenarios(tier string) []*Scenario {
 				shards := uint(1)
 				if v.deriver {
 					shards = 2
+				}
+				if v.shards > 1 {
+					shards = v.shards
 				}
 				root, closer := tally.VerifNewRootScope(scopeOpts(rec, v.cached, v.closable), timeDur(v.interval), shards)
 				s1 := root.Tagged(map[string]string{"a": "1"})
